@@ -176,6 +176,19 @@ def crafted_instances():
     out.append(('nanosecond_steps', {'elems': [heavy, big], 'load': ld(c0=F(1, 1000)), 'ctrls': [], 'stops': [], 'ops': [
         {'op': 'set_initial', 'pos': F(0), 'spd': F(0)}, {'op': 'new_solver', 'sid': 1},
         {'op': 'run', 'sid': 1, 'dt': F(1, 10**9), 'T': F(12, 10**9), 'dt_unit': 'ms', 'T_unit': 'sec'}]}))
+    # two worm stages in one chain, only ONE of them self-locking (either order): the chain is self-locking
+    worm_b = dict(worm, J=F(2, 10**7))
+    for nm, first, second in (('double_worm_free_then_sl', wheel_free, wheel), ('double_worm_sl_then_free', wheel, wheel_free)):
+        chn = [motor, worm, dict(first), worm_b, dict(second, teeth=30), out_gear]
+        out.append((nm, {'elems': chn, 'load': ld(c0=50), 'ctrls': [], 'stops': [], 'ops': sched(6)}))
+        out.append((nm + '_pwm0', {'elems': chn, 'load': ld(c0=F(-1, 2)), 'ctrls': [[const(F(3, 200), 1, 0)]], 'stops': [], 'ops': sched(8, spd0=F(1, 100), ctrl=0)}))
+    # numpy scalars in the load function and in the stop threshold (the documentation's examples write loads with np.sin / np.exp)
+    for nm, inst0 in list(out):
+        if nm.startswith('stop_eq_') or nm in ('hold_then_release', 'engage_pwm_zero'):
+            out.append((nm + '_np', dict(inst0, numpy=True)))
+    free_stop = {'elems': gearpair, 'load': ld(c0=F(1, 1000)), 'ctrls': [], 'stops': [{'sensor': 'tach', 'el': 0, 'op': 'gt', 'thr': F(50)}], 'ops': sched(40, stop=0)}
+    out.append(('free_stop_gt', free_stop))
+    out.append(('free_stop_gt_np', dict(free_stop, numpy=True)))
     # the same loads on the non-self-locking stage and on a motor without current data: never clamped
     out.append(('free_overload', {'elems': [motor, worm, wheel_free, out_gear], 'load': ld(c0=5), 'ctrls': [[const(F(5, 200), 1, 0)]], 'stops': [], 'ops': sched(8, spd0=-3, ctrl=0)}))
     out.append(('nocurrent_locked', {'elems': [motor_nc, worm, wheel], 'load': ld(c0=5), 'ctrls': [[const(F(3, 200), F(3, 100), 0)]], 'stops': [], 'ops': sched(10, ctrl=0)}))
